@@ -604,6 +604,9 @@ enum KeySrc {
 impl Query {
     /// Evaluate on a database (uncorrelated top-level query).
     pub fn eval(&self, db: &Database) -> Result<QueryResult, EvalErr> {
+        // names are resolved statically first: an unknown table/column is an error even when no
+        // row would ever reach the expression that mentions it
+        self.check_names(db, None)?;
         self.eval_in(db, None)
     }
 
@@ -940,4 +943,127 @@ fn eval_select(s: &Select, order_by: &[OrderKey], db: &Database, outer: Option<&
         out_keys = keys2;
     }
     Ok(Produced { columns: items.into_iter().map(|(_, n)| n).collect(), rows: out_rows, keys: out_keys })
+}
+
+// ---------------------------------------------------------------------------
+// static name resolution (no rows involved)
+// ---------------------------------------------------------------------------
+
+/// Chain of schemas visible to an expression: the current query's FROM row, then the enclosing queries'.
+#[derive(Clone, Copy)]
+pub struct Scope<'a> {
+    pub schema: &'a Schema,
+    pub outer: Option<&'a Scope<'a>>,
+}
+
+impl Expr {
+    /// Check that every column reference resolves (unambiguously) and every table of every
+    /// subquery exists — the errors a SQL engine raises when it prepares the statement.
+    pub fn check_names(&self, scope: &Scope, db: &Database) -> Result<(), EvalErr> {
+        match self {
+            Expr::Col(c) => {
+                let mut sc = Some(scope);
+                while let Some(s) = sc {
+                    match s.schema.resolve(c.table.as_deref(), &c.name) {
+                        Err(()) => return Err(EvalErr::AmbiguousColumn(c.to_sql())),
+                        Ok(Some(_)) => return Ok(()),
+                        Ok(None) => sc = s.outer,
+                    }
+                }
+                Err(EvalErr::NoSuchColumn(c.to_sql()))
+            }
+            Expr::InSub(a, q, _) => {
+                a.check_names(scope, db)?;
+                q.check_names(db, Some(scope)).map(|_| ())
+            }
+            Expr::Exists(q) | Expr::Scalar(q) => q.check_names(db, Some(scope)).map(|_| ()),
+            other => {
+                for c in other.children() {
+                    c.check_names(scope, db)?;
+                }
+                Ok(())
+            }
+        }
+    }
+}
+
+fn from_schema(f: &From, db: &Database, outer: Option<&Scope>) -> Result<Schema, EvalErr> {
+    match f {
+        From::Table { name, alias } => {
+            let t = db.tables.get(name).ok_or_else(|| EvalErr::NoSuchTable(name.clone()))?;
+            Ok(t.schema(alias.as_deref().unwrap_or(name)))
+        }
+        From::Derived { query, alias } => {
+            let cols = query.check_names(db, outer)?;
+            Ok(Schema { cols: cols.into_iter().map(|c| SchemaCol { table: Some(alias.clone()), name: c, ty: None }).collect() })
+        }
+        From::Join { left, right, on, .. } => {
+            let l = from_schema(left, db, outer)?;
+            let r = from_schema(right, db, outer)?;
+            let schema = Schema { cols: l.cols.into_iter().chain(r.cols).collect() };
+            if let Some(e) = on {
+                e.check_names(&Scope { schema: &schema, outer }, db)?;
+            }
+            Ok(schema)
+        }
+    }
+}
+
+fn body_names(b: &Body, order_by: &[OrderKey], db: &Database, outer: Option<&Scope>) -> Result<Vec<String>, EvalErr> {
+    match b {
+        Body::Select(s) => {
+            let schema = match &s.from {
+                Some(f) => from_schema(f, db, outer)?,
+                None => Schema::default(),
+            };
+            let scope = Scope { schema: &schema, outer };
+            let mut names = vec![];
+            let mut aliases = vec![];
+            for it in &s.items {
+                match it {
+                    SelectItem::Expr { expr, alias } => {
+                        expr.check_names(&scope, db)?;
+                        names.push(item_name(expr, alias));
+                        if let Some(a) = alias {
+                            aliases.push(a.clone());
+                        }
+                    }
+                    SelectItem::Star(q) => {
+                        let before = names.len();
+                        names.extend(schema.cols.iter().filter(|c| q.is_none() || c.table == *q).map(|c| c.name.clone()));
+                        if names.len() == before {
+                            return Err(EvalErr::NoSuchTable(format!("{}.*", q.clone().unwrap_or_default())));
+                        }
+                    }
+                }
+            }
+            for e in s.where_.iter().chain(s.group_by.iter()).chain(s.having.iter()) {
+                e.check_names(&scope, db)?;
+            }
+            for k in order_by {
+                if let OrderBy::Expr(e) = &k.by {
+                    let is_alias = matches!(e, Expr::Col(ColRef { table: None, name }) if aliases.contains(name));
+                    if !is_alias {
+                        e.check_names(&scope, db)?;
+                    }
+                }
+            }
+            Ok(names)
+        }
+        Body::SetOp { op, left, right, .. } => {
+            let l = body_names(left, &[], db, outer)?;
+            let r = body_names(right, &[], db, outer)?;
+            if l.len() != r.len() {
+                return Err(EvalErr::Arity(format!("{} of {} and {} columns", op.sql(), l.len(), r.len())));
+            }
+            Ok(l)
+        }
+    }
+}
+
+impl Query {
+    /// Static check of the whole query (see `Expr::check_names`); returns the output column names.
+    pub fn check_names(&self, db: &Database, outer: Option<&Scope>) -> Result<Vec<String>, EvalErr> {
+        body_names(&self.body, &self.order_by, db, outer)
+    }
 }
